@@ -104,6 +104,10 @@ var c16Corpus = []string{
 	"package main\n\nlet g x y z =\n  let c = [[x]; y]\n  let d = [[y]; z]\n  let e = [[z]; x]\n  c\n",
 	"package main\n\nlet g x y =\n  let p = (x, [y])\n  let q = ([p], x)\n  let r = [q; y]\n  r\n",
 	"package main\n\nlet h f g =\n  let a = f g\n  let b = g f\n  a\n",
+	// relations that regenerate themselves in updateResolver's fixpoint loop
+	"package main\n\nlet loop x = (x = [x], x = [[x]])\n",
+	"package main\n\nlet loop2 x y = (x = [y], y = [[x]], x = y)\n",
+	"package main\n\nlet loop3 f = (f = (fun a -> f), f = (fun a -> (fun b -> f)))\n",
 	"package main\n\nlet f x = (x, f)\n",
 	"package main\n\nlet f (x:int) =\n  match x with\n",
 	"package main\n\nlet f (x:int) =\n  if x then\n",
